@@ -232,6 +232,12 @@ def run(ctx):
         ctx.check(mid == want_mid, RO, "encode_sequences::per-sequence", b["file"],
                   "walking backwards: state transitions OF, ML, LL then extra bits LL, ML, OF (the decoder's order reversed)",
                   observed=mid, expected=want_mid)
+        if post == want_post[:-1]:
+            # one padding write whose width is chosen first: `match misaligned { 0 => 8, n => n }`
+            padw = [w for w in ws if w["sp"][0] > loop[0]["sp"][1] and classify(w) == "pad"]
+            wv = pv(padw[0]["args"][1]) if len(padw) == 1 else ""
+            if "BitWriter::misaligned(" in wv and "8" in wv:
+                post = post + ["pad"]
         ctx.check(post == want_post, RO, "encode_sequences::final-states-and-padding", b["file"],
                   "final states ML, OF, LL (read back LL, OF, ML) and then the padding marker", observed=post, expected=want_post)
         # the state variable written as init X is the one driven by table X
@@ -265,6 +271,21 @@ def run(ctx):
                 if rp[2]:
                     end = L.add(end, ({}, 1))
                 okb = end == ({"len($0)": 1}, -1)
+        if not okb and itn.get("k") == "MethodCall" and itn["name"] == "rev":
+            # the same walk over the elements: `sequences[..len - 1].iter().rev()`
+            r_ = hq.peel(itn["recv"])
+            if r_.get("k") == "MethodCall" and r_["name"] == "iter":
+                sl = hq.peel(r_["recv"])
+                while sl.get("k") == "AddrOf":
+                    sl = hq.peel(sl["e"])
+                if sl.get("k") == "Index" and pv(sl["e"]) == "$0":
+                    rp = hq.range_parts(sl["idx"])
+                    if rp is not None and (rp[0] is None or H.lit_val(rp[0]) == 0) and rp[1] is not None:
+                        from ..rules import bounds as _b
+                        end = _b.make_lin(ix).of(rp[1])
+                        if rp[2]:
+                            end = L.add(end, ({}, 1))
+                        okb = end == ({"len($0)": 1}, -1)
         ctx.check(okb, RO, "encode_sequences::backwards", b["file"],
                   "sequences are encoded from the second to last down to the first", observed=it)
         # table descriptions LL, OF, ML
